@@ -7,4 +7,7 @@ export CARGO_TARGET_DIR="$PWD/target" RUSTFLAGS="--cfg microscpi_verif -A mismat
 cd harness
 cargo build --release --offline -q -p mc
 (cd ../harness-nostd && CARGO_TARGET_DIR="$OLDPWD/../target-nostd" RUSTFLAGS="-A mismatched_lifetime_syntaxes" cargo build --release --offline -q)
+cd ..
+./check C01 --build-only
+./check C14 --build-only
 echo "setup ok"
